@@ -10,7 +10,7 @@ Line-protocol driver for C10.  First word selects the sub-model:
   m <F|P> <pats> <path-hex>…        ResourceDef::new / ::prefix; per path `is/find/capture`
   b <F|P> <pats> <val-hex>…         resource_path_from_iter, then capture on the built path
   bm <F|P> <pats> <name>=<val>…     resource_path_from_map
-  k <path-hex> <F|P>:<pat-hex>…     successive capture_match_info on one Path
+  k <path-hex> <F|P>:<pat-hex>[,<pat-hex>…]…  successive capture_match_info on one Path
     <pats> = `S <pat-hex>` (Patterns::Single) | `L<n> <pat-hex>×n` (Patterns::List)
 (hex: lower-case, `-` = empty; strings are UTF-8; a path/pattern word may also be written
 `part+part+…` with parts hex or `*<n>:<hex>` = the bytes repeated n times)
@@ -155,10 +155,11 @@ def runChain (ws : List String) : String :=
           match s.splitOn ":" with
           | flag :: p0 :: more =>
             -- the pattern word may itself contain `:` (compact `*<n>:<hex>` parts)
-            match strOfHex (joinWith ":" (p0 :: more)) with
+            -- one pattern, or a comma-separated pattern list (`Patterns::List`)
+            match allSome (((joinWith ":" (p0 :: more)).splitOn ",").map strOfHex) with
             | none => (("bad-case") :: acc).reverse
-            | some cs =>
-              match parsePattern (flag == "P") (.single cs) with
+            | some pats =>
+              match parsePattern (flag == "P") (match pats with | [cs] => .single cs | ps => .list ps) with
               | .error e => ((parseErrStr e) :: acc).reverse
               | .ok rd =>
                 match rd.captureMatchInfo st with
